@@ -1,0 +1,18 @@
+//go:build verif
+
+package common
+
+import "io"
+
+// Verification harness (build tag verif only): composes the real encoder with the real decoder so that the
+// round trip becomes one postcondition (see zz_contracts_verif.go).
+func verifStringRoundTrip(s string, w io.Writer, r io.Reader) (string, bool) {
+	if _, err := WriteString(s, w); err != nil {
+		return "", false
+	}
+	t, _, err := ReadString(r)
+	if err != nil {
+		return "", false
+	}
+	return t, true
+}
